@@ -133,9 +133,6 @@ def hexOf (s : String) : String := bytesHex (s.toUTF8.toList.map (·.toNat))
 def answer (evs : List Event) (q : Query) : String :=
   let inr := evs.filter (inRange q.start q.end_)
   let tri := inr.map (fun e => (e, evalFilter e q.filter))
-  let isBool := match q.filter with | .and _ _ | .or _ _ | .not _ => true | _ => false
-  -- a boolean combination that mentions a field which some event in range lacks (see known_findings.txt)
-  let sparse := if isBool && inr.any (fun e => q.filter.fields.any (fun f => (e.get f).isNone)) then ["boolean-over-sparse-field"] else []
   -- `!=` / NOT on a field that some event in range lacks: whether such an event matches is left to the
   -- engine by the statement, but the engine's answer must not depend on the layout (it does: known finding)
   let rec hasNeg : Filter → Bool
@@ -147,7 +144,7 @@ def answer (evs : List Event) (q : Query) : String :=
     | .not _ => true
   let negSparse := if hasNeg q.filter && evs.any (fun e => q.filter.fields.any (fun f => (e.get f).isNone))
     then ["negation-over-sparse-field"] else []
-  let cls := ((tri.flatMap (fun (_, (_, c)) => c)) ++ mixedTextFields inr q.filter.fields ++ sparse ++ negSparse).eraseDups
+  let cls := ((tri.flatMap (fun (_, (_, c)) => c)) ++ mixedTextFields inr q.filter.fields ++ negSparse).eraseDups
   let must := (tri.filter (fun (_, (t, _)) => t == Tri.yes)).map (·.1)
   let may := (tri.filter (fun (_, (t, _)) => t == Tri.either)).map (·.1)
   match q.stages with
